@@ -16,6 +16,9 @@ EXTRA = {  # seed -> other checks worth running
     "C01-6": ["C11", "C02"], "C01-7": ["C02", "C04"], "C02-6": ["C03"], "C02-7": ["C03"], "C03-6": ["C04"], "C03-7": ["C09"], "C04-6": ["C20"], "C04-7": ["C11"],
     "C06-6": ["C10"], "C06-7": ["C12"], "C07-6": ["C09"], "C09-7": ["C03"], "C11-6": ["C04"], "C11-7": ["C01"], "C16-6": ["C05"], "C16-7": ["C05"],
     "C20-6": ["C04", "C07"], "C20-7": ["C04", "C11"],
+    "C01-8": ["C05"], "C01-9": ["C15", "C02"], "C02-8": ["C04", "C01"], "C02-9": ["C09", "C03"], "C03-8": ["C01"], "C03-9": ["C11", "C10"], "C04-8": ["C09", "C07"], "C04-9": ["C03"],
+    "C05-9": ["C16"], "C06-9": ["C02", "C01"], "C07-9": ["C09"], "C09-8": ["C08"], "C10-9": ["C14"], "C11-8": ["C04"], "C11-9": ["C04"], "C13-8": ["C06"],
+    "C15-8": ["C01"], "C15-9": ["C06"], "C16-8": ["C05", "C12"], "C16-9": ["C05", "C01"], "C17-8": ["C03", "C02"], "C20-9": ["C04", "C10"],
     "D-builder-selection": ["C12"], "D-specconstop-panic": ["C04", "C03", "C20"], "D-specconstop-quantifier": ["C03"], "D-disas-constant": ["C04", "C20"],
 }
 only = sys.argv[1:]
